@@ -1272,3 +1272,38 @@ pub fn emicro_enumerate(tier: crate::runner::Tier, i: u64) -> Option<Value> {
     }
     None
 }
+
+/// E2: a thread with nested guards re-activates one of them again and again while a peer defers
+/// and collects; nothing deferred during the life of the older guard may run before it is gone.
+pub fn e2() -> BoxedStrategy<Value> {
+    (0u8..20, 1u32..7, 1u8..4, any::<u8>(), any::<bool>(), 0u8..3)
+        .prop_map(|(align, r, rounds, which, a_defers, kind)| {
+            let d = |k: EK, a: u8, b: u8| EOp { k, a, b };
+            let mut a = vec![d(EK::Pin, 0, 0), d(EK::Pin, 0, 0)];
+            let mut b = Vec::new();
+            let mut sched = Vec::new();
+            sched.push(Directive { thread: 0, until: Until::OpIndex(2) });
+            for i in 0..r {
+                if a_defers {
+                    a.push(d(EK::Defer, 0, i as u8));
+                }
+                a.push(d(match kind { 0 => EK::Reactivate, 1 => EK::ReactivateAfter, _ => if i % 2 == 0 { EK::Reactivate } else { EK::ReactivateAfter } }, which, 0));
+                b.push(d(EK::Pin, 0, 0));
+                b.push(d(EK::Defer, 0, (i as u8).wrapping_mul(3)));
+                b.push(d(EK::DropGuard, 0, 0));
+                for _ in 0..rounds {
+                    b.push(d(EK::Round, 0, 0));
+                }
+                sched.push(Directive { thread: 1, until: Until::OpIndex(b.len() as u32) });
+                sched.push(Directive { thread: 0, until: Until::OpIndex(a.len() as u32) });
+            }
+            for _ in 0..4 {
+                b.push(d(EK::Round, 0, 0));
+            }
+            sched.push(Directive { thread: 1, until: Until::OpIndex(b.len() as u32) });
+            a.push(d(EK::DropGuard, 255, 0));
+            a.push(d(EK::DropGuard, 0, 0));
+            serde_json::to_value(EbrCase { align, threads: vec![a, b], sched, private: false }).unwrap()
+        })
+        .boxed()
+}
